@@ -217,6 +217,8 @@ struct WalWriter {
     last_flush: Instant,
     /// Pending entries
     pending_entries: Vec<WalEntry>,
+    /// Highest transaction id written to the current file
+    last_transaction_id: u64,
 }
 
 /// Recovery statistics
@@ -334,6 +336,7 @@ impl WalWriter {
             flush_strategy,
             last_flush: Instant::now(),
             pending_entries: Vec::new(),
+            last_transaction_id: 0,
         })
     }
 
@@ -365,6 +368,7 @@ impl WalWriter {
 
         self.current_size += 4 + serialized.len() as u64;
         self.entry_count += 1;
+        self.last_transaction_id = self.last_transaction_id.max(entry.transaction_id);
 
         // Handle flush strategy
         match self.flush_strategy {
@@ -441,11 +445,14 @@ impl WalWriter {
             ))
         })?;
 
-        // Rename to timestamped file
-        let timestamp = current_timestamp();
-        let rotated_path = self
-            .path
-            .with_file_name(format!("wal.{timestamp}.{WAL_EXTENSION}"));
+        // Rename to a file named after the last transaction it holds. Transaction
+        // ids are unique and increasing, so the name can neither collide with an
+        // earlier rotation (two rotations within one wall-clock second used to
+        // overwrite each other) nor sort wrongly when the clock steps back.
+        let rotated_path = self.path.with_file_name(format!(
+            "wal.{:020}.{WAL_EXTENSION}",
+            self.last_transaction_id
+        ));
         std::fs::rename(&self.path, &rotated_path).map_err(|e| {
             P2PError::Storage(StorageError::Database(
                 format!("Failed to rotate WAL: {e}").into(),
@@ -466,6 +473,7 @@ impl WalWriter {
 
         self.current_size = 0;
         self.entry_count = 0;
+        self.last_transaction_id = 0;
         vpoint!("rotate.after_create", &self.path);
 
         Ok(())
@@ -785,9 +793,6 @@ impl<T: Serialize + for<'de> Deserialize<'de> + Clone + PartialEq + Send + Sync 
 
     /// Create checkpoint (snapshot)
     pub async fn checkpoint(&self) -> Result<()> {
-        let snapshot_path = self.generate_snapshot_path();
-        let temp_path = snapshot_path.with_extension("tmp");
-
         // Get current state and transaction ID
         let (current_state, last_transaction_id) = {
             let state = self.state.read().map_err(|_| {
@@ -802,6 +807,9 @@ impl<T: Serialize + for<'de> Deserialize<'de> + Clone + PartialEq + Send + Sync 
             })?;
             (state.clone(), *counter)
         };
+
+        let snapshot_path = self.generate_snapshot_path(last_transaction_id);
+        let temp_path = snapshot_path.with_extension("tmp");
 
         // Create snapshot
         let snapshot_data = postcard::to_stdvec(&current_state).map_err(|e| {
@@ -1182,11 +1190,13 @@ impl<T: Serialize + for<'de> Deserialize<'de> + Clone + PartialEq + Send + Sync 
     }
 
     /// Generate snapshot path
-    fn generate_snapshot_path(&self) -> PathBuf {
-        let timestamp = current_timestamp();
-        self.config
-            .state_dir
-            .join(format!("snapshot.{timestamp}.{SNAPSHOT_EXTENSION}"))
+    ///
+    /// Named after the last transaction the snapshot covers (not the wall-clock
+    /// second), so "newest by name" is newest by content even if the clock steps.
+    fn generate_snapshot_path(&self, last_transaction_id: u64) -> PathBuf {
+        self.config.state_dir.join(format!(
+            "snapshot.{last_transaction_id:020}.{SNAPSHOT_EXTENSION}"
+        ))
     }
 
     /// Find all snapshot files
